@@ -11,6 +11,9 @@ pub fn fault_free(sc: &Scenario) -> Scenario {
     s.fail_at = None;
     s.max_mem = None;
     s.misuse_calls = 0;
+    if let Some(hs) = clear_stream_faults(&s.handlers) {
+        s.handlers = hs;
+    }
     s
 }
 
